@@ -115,9 +115,9 @@ fn plant_syntax_error(b: &[u8], pos: usize, kind: usize, f: Fmt) -> (Vec<u8>, &'
     }
 }
 
-pub fn input_side(input: &[u8], f: Fmt, mode: &Mode, how: &str, acc: &mut Acc) {
-    // independently confirm that the input is malformed
-    match crate::selfcheck::read_back(f, input) {
+pub fn input_side(input: &[u8], f: Fmt, mode: &Mode, how: &str, planted_at: Option<usize>, acc: &mut Acc) {
+    // independently confirm that the input is malformed (as a stream of documents)
+    match crate::read::read_stream(f, input).map(|_| ()).or_else(|e| if crate::selfcheck::read_back(f, input).is_ok() { Ok(()) } else { Err(e) }) {
         Ok(_) => {
             acc.count("mutant_still_valid_skipped");
             return;
@@ -143,7 +143,7 @@ pub fn input_side(input: &[u8], f: Fmt, mode: &Mode, how: &str, acc: &mut Acc) {
         return;
     }
     acc.count(&format!("input_side_{}_{}", f.name(), how));
-    let case = || json!({"part": "input", "input_hex": hex(input), "input_preview": preview(input, 200), "from": f.name(), "mode": mode.describe(), "planted": how});
+    let case = || json!({"part": "input", "input_hex": hex(input), "input_preview": preview(input, 200), "from": f.name(), "mode": mode.describe(), "planted": how, "planted_at": planted_at});
     let texts: Vec<String> = outs.iter().map(|(_, o)| o.verdict.show()).collect();
     if let Some((to, o)) = outs.iter().find(|(_, o)| o.verdict.is_panic()) {
         acc.violation(Violation { sig: format!("panic on malformed {} input", f.name()), case: case(), observed: format!("to {}: {}", to.name(), o.verdict.show()), expected: "an error".into() });
@@ -169,6 +169,22 @@ pub fn input_side(input: &[u8], f: Fmt, mode: &Mode, how: &str, acc: &mut Acc) {
         // reports the construct it cannot translate before it ever reaches the defect
         acc.count("input_side_unsupported_tag_met_first_skipped");
         return;
+    }
+    // JSON positions count lines of the WHOLE input: a parser cannot notice a defect before it has read up
+    // to it, so the reported line cannot lie before the line of the planted damage (serde_json's slice and
+    // reader front ends disagree with each other by a column, or by "line n+1 column 0" at a line end, so
+    // nothing finer than the line is demanded)
+    if f == Fmt::Json {
+        if let (Some(at), Some((_, tail))) = (planted_at, e.rsplit_once(" at line ")) {
+            if let Some(line) = tail.split_whitespace().next().and_then(|l| l.parse::<usize>().ok()) {
+                let true_line = 1 + input[..at.min(input.len())].iter().filter(|b| **b == b'\n').count();
+                acc.count("input_side_json_line_checked");
+                if line + 1 < true_line {
+                    acc.violation(Violation { sig: "json: the reported line lies before the planted defect".into(), case: case(), observed: format!("{e} (the damage was planted at byte {at}, on line {true_line})"), expected: format!("a position on line {true_line} or later") });
+                    return;
+                }
+            }
+        }
     }
     // libyaml's character reader (control characters, invalid UTF-8) reports a byte offset, not a
     // line and column: it must be the offset at which such a byte really stands
@@ -410,7 +426,33 @@ pub fn run(ctx: &Ctx) -> i32 {
             base.clone()
         };
         let plain = rng.below(2) == 0;
-        let good = spell(f, &doc, &mut rng, &mut feats, plain);
+        let mut good = spell(f, &doc, &mut rng, &mut feats, plain);
+        if i % 3 == 1 && f != Fmt::Toml {
+            // a stream of two or three documents: the defect may sit in a later document, where positions
+            // must still be those of the whole input
+            let small = GenOpts { max_depth: 2, max_width: 2, ..GenOpts::common() };
+            let mut parts = vec![good.clone()];
+            for _ in 0..rng.range(1, 2) {
+                let d = gen_doc(&mut rng, &small, &mut cl);
+                parts.push(spell(f, &d, &mut rng, &mut feats, plain));
+            }
+            good = match f {
+                Fmt::Yaml => {
+                    let mut b = vec![];
+                    for p in &parts {
+                        b.extend_from_slice(b"---\n");
+                        b.extend_from_slice(p);
+                        if !p.ends_with(b"\n") {
+                            b.push(b'\n');
+                        }
+                    }
+                    b
+                }
+                Fmt::Json => parts.join(&b"\n"[..]),
+                _ => parts.concat(),
+            };
+            acc.count("input_side_multi_document_streams");
+        }
         if !good.is_empty() && run_slice(&good, Some(f), Fmt::Json).verdict.is_ok() {
             let every = if good.len() <= 200 { 1 } else { good.len() / 100 };
             let mut pos = 0;
@@ -421,7 +463,7 @@ pub fn run(ctx: &Ctx) -> i32 {
                     }
                     let (bad, how) = plant_syntax_error(&good, pos, kind, f);
                     let mode = if (pos + kind) % 2 == 0 { Mode::Slice } else { Mode::Reader(if pos % 3 == 0 { Sched::One } else { Sched::All }) };
-                    input_side(&bad, f, &mode, how, acc);
+                    input_side(&bad, f, &mode, how, Some(pos), acc);
                 }
                 pos += every;
             }
@@ -491,7 +533,7 @@ pub fn replay(v: &Value) -> i32 {
     };
     let mut acc = Acc::default();
     match c["part"].as_str() {
-        Some("input") => input_side(&input, src, &mode, "replay", &mut acc),
+        Some("input") => input_side(&input, src, &mode, "replay", c["planted_at"].as_u64().map(|x| x as usize), &mut acc),
         Some("value") => {
             let Some(u) = c["construct"].as_str().and_then(Unrep::parse) else { return 2 };
             output_side_value(&input, src, u, &mode, "", &mut acc)
